@@ -2,6 +2,7 @@
 
 from xv import ctx
 from xv.core import Harness, run
+from xv.env import mstore, mweb
 from xv.harness import _store
 
 EXPLANATION = (
@@ -84,6 +85,127 @@ def h_web_reads(c0: bytes, c1: bytes, which: int, typed: bool) -> bool:
     return run(body_web_reads, c0, c1, which, typed)
 
 
+# ------------------------------------------------------------------ the rendered views, reads and refusals (menu)
+VIEWS = ["{DAV:}getctag", "{http://calendarserver.org/ns/}getctag", "{DAV:}sync-token", "{DAV:}getetag"]
+READS = ["propfind-depth1", "get-member", "get-collection", "head-member", "options", "propfind-parent", "sync-empty",
+         "sync-current", "calendar-query", "multiget", "put-refused-precondition", "put-refused-invalid",
+         "put-refused-duplicate", "delete-missing", "mkcol-existing", "proppatch-noop-value", "get-missing"]
+
+
+def _views(app, col):
+    p = mweb.call(app, "PROPFIND", col + "/", headers=[("Depth", "0")], xml=mweb.propfind_body(*VIEWS))
+    if p.kind != "multistatus" or not p.statuses:
+        return None
+    return [mweb.prop_text(p.statuses[0], v) for v in VIEWS]
+
+
+def body_views(si, ri, typed):
+    """What a client sees: the four collection properties that carry the tag (DAV:getctag, CS:getctag,
+    DAV:sync-token, DAV:getetag of the collection), rendered by the real property classes through PROPFIND, are
+    one value (the etag quoted) == the tag of the state; a read (PROPFIND, GET, HEAD, OPTIONS, sync-collection with
+    an empty / the current token, calendar-query, multiget) or a request that is refused (412 / 404 / 405) leaves
+    all four where they were; an accepted PUT then moves all four together to the new state's tag."""
+    from xv.core import picks, untraced
+    from xv.oracles import storespec as SP
+    (c0, c1), how, typed = picks((si, ri, typed), ([(b"", b""), (b"xa", b""), (b"xa", b"xb"), (b"x-", b"Nb")], READS, "bool"))
+    with untraced():
+        import xandikos.webdav as Wd
+        kind = ctx.PART
+        S = {n: SP.norm(n, b) for n, b in (("a.ics", c0), ("b.ics", c1)) if len(b) > 0}
+        mweb.fresh_world({}, {})
+        col = "/user/calendars/plain"
+        mstore.install_state(kind, mweb.ROOT + col, S)
+        if typed:
+            mweb.set_type(mweb.ROOT + col, "calendar")
+        app = mweb.make_app()
+        want = _store.expected_ctag(S)
+        v0 = _views(app, col)
+        if v0 != [want, want, want, '"' + want + '"']:
+            return (False, "views-before")
+        CAL = "urn:ietf:params:xml:ns:caldav"
+        r = None
+        if how == "propfind-depth1":
+            r = mweb.call(app, "PROPFIND", col + "/", headers=[("Depth", "1")], xml=mweb.propfind_body("{DAV:}getetag", "{DAV:}resourcetype"))
+        elif how == "get-member":
+            r = mweb.call(app, "GET", col + "/a.ics")
+        elif how == "get-collection":
+            r = mweb.call(app, "GET", col + "/")
+        elif how == "head-member":
+            r = mweb.call(app, "HEAD", col + "/a.ics")
+        elif how == "options":
+            r = mweb.call(app, "OPTIONS", col + "/")
+        elif how == "propfind-parent":
+            r = mweb.call(app, "PROPFIND", "/user/calendars/", headers=[("Depth", "1")], xml=mweb.propfind_body("{DAV:}resourcetype"))
+        elif how in ("sync-empty", "sync-current"):
+            el = Wd.ET.Element("{DAV:}sync-collection")
+            t = Wd.ET.SubElement(el, "{DAV:}sync-token")
+            if how == "sync-current":
+                t.text = want
+            Wd.ET.SubElement(el, "{DAV:}sync-level").text = "1"
+            Wd.ET.SubElement(Wd.ET.SubElement(el, "{DAV:}prop"), "{DAV:}getetag")
+            r = mweb.call(app, "REPORT", col + "/", xml=el, content_type="text/xml")
+        elif how == "calendar-query":
+            el = Wd.ET.Element("{%s}calendar-query" % CAL)
+            Wd.ET.SubElement(Wd.ET.SubElement(el, "{DAV:}prop"), "{DAV:}getetag")
+            f = Wd.ET.SubElement(el, "{%s}filter" % CAL)
+            Wd.ET.SubElement(f, "{%s}comp-filter" % CAL).set("name", "VCALENDAR")
+            if not typed:
+                return (True, "pre-invalid")  # the report is only offered on calendar collections
+            r = mweb.call(app, "REPORT", col + "/", xml=el, content_type="text/xml", headers=[("Depth", "1")])
+        elif how == "multiget":
+            el = Wd.ET.Element("{%s}calendar-multiget" % CAL)
+            Wd.ET.SubElement(Wd.ET.SubElement(el, "{DAV:}prop"), "{DAV:}getetag")
+            Wd.ET.SubElement(el, "{DAV:}href").text = col + "/a.ics"
+            if not typed:
+                return (True, "pre-invalid")
+            r = mweb.call(app, "REPORT", col + "/", xml=el, content_type="text/xml")
+        elif how == "put-refused-precondition":
+            r = mweb.call(app, "PUT", col + "/a.ics", body=b"xq", content_type="text/calendar", headers=[("If-Match", '"zz"')])
+        elif how == "put-refused-invalid":
+            r = mweb.call(app, "PUT", col + "/a.ics", body=b"!q", content_type="text/calendar")
+        elif how == "put-refused-duplicate":
+            if "b.ics" not in S or SP.uid("b.ics", S["b.ics"]) is None:
+                return (True, "pre-invalid")
+            r = mweb.call(app, "PUT", col + "/n.ics", body=b"y" + S["b.ics"][1:2], content_type="text/calendar")
+        elif how == "delete-missing":
+            r = mweb.call(app, "DELETE", col + "/n.ics")
+        elif how == "mkcol-existing":
+            r = mweb.call(app, "MKCOL", col)
+        elif how == "proppatch-noop-value":
+            el = Wd.ET.Element("{DAV:}propertyupdate")
+            prop = Wd.ET.SubElement(Wd.ET.SubElement(el, "{DAV:}remove"), "{DAV:}prop")
+            Wd.ET.SubElement(prop, "{DAV:}comment")   # removing a property that is not set
+            r = mweb.call(app, "PROPPATCH", col + "/", xml=el, content_type="text/xml")
+        elif how == "get-missing":
+            r = mweb.call(app, "GET", col + "/n.ics")
+        if how.startswith("put-refused") and r.status_class != "412":
+            return (False, how + ":not-refused")
+        if how in ("delete-missing", "get-missing") and r.status_class != "404":
+            return (False, how + ":not-refused")
+        if _views(app, col) != v0:
+            return (False, how + ":moved")
+        if mstore.open_store(kind, mweb.ROOT + col).get_ctag() != want:
+            return (False, how + ":moved-on-disk")
+        # ... and an accepted write moves all four together
+        w = mweb.call(app, "PUT", col + "/z.vcf", body=b"v9", content_type="text/vcard")
+        if w.status_class != "2xx":
+            return (False, how + ":write-refused")
+        S2 = dict(S)
+        S2["z.vcf"] = b"v9"
+        want2 = _store.expected_ctag(S2)
+        if _views(app, col) != [want2, want2, want2, '"' + want2 + '"'] or want2 == want:
+            return (False, how + ":views-after-write")
+        return (True, ("typed:" if typed else "untyped:") + how)
+
+
+def h_views(si: int, ri: int, typed: bool) -> bool:
+    """
+    pre: 0 <= si < 4 and 0 <= ri < len(READS)
+    post: _
+    """
+    return run(body_views, si, ri, typed)
+
+
 def body_ctag_fault(c0, c1, target, body, k):
     """A write that fails part-way (injected ENOSPC / failed ref update at the k-th mutation) must not move the tag,
     neither as seen by the same store object (caches!) nor by a fresh one."""
@@ -124,6 +246,19 @@ HARNESSES = [
             encodes=_store.STEP_ENCODES + ["xandikos.web.StoreBasedCollection.get_ctag",
                                            "xandikos.web.StoreBasedCollection.get_sync_token",
                                            "xandikos.web.StoreBasedCollection.get_etag"]),
+    Harness("views", h_views, body_views, classes=[("typed:sync-empty", "tree"), ("untyped:get-member", "bare"), ("typed:calendar-query", "bare")],
+            parts={"quick": ["tree", "bare"]}, budget={"quick": 90, "thorough": 240},
+            describe="the four rendered views (DAV:getctag, CS:getctag, DAV:sync-token, collection getetag) through PROPFIND "
+                     "== tag of the state; unchanged by each of %d reads / refused requests (PROPFIND, GET, HEAD, OPTIONS, "
+                     "sync-collection, calendar-query, multiget, PUT refused by precondition / validity / UID, DELETE and GET of a "
+                     "missing member, MKCOL on an existing path, PROPPATCH removing an unset property); an accepted PUT moves "
+                     "all four together; exhaustive over 4 states x reads x typed/untyped; part = back end" % len(READS),
+            encodes=["xandikos.webdav.DAVGetCTagProperty.get_value", "xandikos.webdav.AppleGetCTagProperty.get_value",
+                     "xandikos.sync.SyncTokenProperty.get_value", "xandikos.webdav.GetETagProperty.get_value",
+                     "xandikos.web.StoreBasedCollection.get_ctag", "xandikos.web.StoreBasedCollection.get_etag",
+                     "xandikos.sync.SyncCollectionReporter.report", "xandikos.caldav.CalendarQueryReporter.report",
+                     "xandikos.davcommon.MultiGetReporter.report", "xandikos.webdav.OptionsMethod.handle",
+                     "xandikos.store.git.BareGitStore._get_current_tree"]),
     Harness("web_reads", h_web_reads, body_web_reads, classes=[("untyped:0", "tree"), ("typed:1", "bare")],
             parts={"quick": ["tree", "bare"]}, budget={"quick": 75, "thorough": 300},
             describe="PROPFIND / GET through the real web layer on a typed or untyped collection in an arbitrary valid "
